@@ -143,7 +143,7 @@ def decoy_after(rng, build, p=0.3):
         return None
     try:
         return build()
-    except Exception:
+    except (ValueError, TypeError):      # a refusal of the other instance's parameters is not this case's business
         return None
 
 
